@@ -22,69 +22,161 @@
   only, so no UNKNOWN arises).  The WHERE clause is evaluated once per row of the table, in table order: a placeholder
   is READ only when a row reaches it — over an empty table nothing is read and the OPEN succeeds whatever the frame.
 
-  USING values are integer literals here (csvq keeps the value EXPRESSIONS in the frame and evaluates them at every read
-  in the context of the reader; the correspondence stream uses literals only — see findings_inbox/using-placeholder-recursion).
+  USING values are EXPRESSIONS (literal, placeholder, placeholder + constant): csvq keeps them in the frame and evaluates
+  them at every read, since /repo 6dd3cc3 (finding F118) in the context the list was WRITTEN in (`values.Outer`), so a
+  placeholder in a USING list is one of the surrounding statement.
 -/
 import Csvq.Model.Cursor
 namespace Csvq.CursorStmt
 open Csvq Csvq.Cursor
 
-/-- parser.Placeholder: `?` (Ordinal ≥ 1, numbered by the parser within one prepared statement) or `:name` -/
+/-- parser.Placeholder: `?` (Ordinal ≥ 1: its position among ALL placeholders, named ones included, of the text of
+    one prepared statement — lib/parser/scanner.go) or `:name` -/
 inductive Holder
   | pos (ordinal : Nat)
   | named (name : String)
   deriving DecidableEq, Repr, Inhabited
 
-/-- parser.ReplaceValue: one item of a USING list — the value and the name behind AS ("" : none) -/
+/-- a value expression of a USING list: a literal, a placeholder — one of the statement the list is WRITTEN in —, or
+    such an expression plus a constant (`? + k`) -/
+inductive VExpr
+  | lit (n : Int)
+  | ph (h : Holder)
+  | plus (e : VExpr) (k : Int)
+  deriving DecidableEq, Repr, Inhabited
+
+instance {n : Nat} : OfNat VExpr n := ⟨.lit n⟩
+
+def VExpr.size : VExpr → Nat
+  | .lit _ => 1
+  | .ph _ => 1
+  | .plus e _ => e.size + 1
+
+/-- no placeholder in it -/
+def VExpr.closed : VExpr → Bool
+  | .lit _ => true
+  | .ph _ => false
+  | .plus e _ => e.closed
+
+/-- parser.ReplaceValue: one item of a USING list — the value expression and the name behind AS ("" : none) -/
 structure RV where
-  value : Int
+  value : VExpr
   name : String
   deriving DecidableEq, Repr, Inhabited
 
-/-- prepared_statement.go `ReplaceValues`; the Go map as an association list whose FIRST match is the entry the map
-    holds (the last one written) -/
+/-- prepared_statement.go `ReplaceValues{Values, Names}` (the value EXPRESSIONS, as csvq keeps them); the Go map as
+    an association list whose FIRST match is the entry the map holds (the last one written).  The third field,
+    `Outer`, is the `below` of `Ctx.push`. -/
 structure Frame where
-  values : List Int
+  values : List VExpr
   names : List (String × Nat)
   deriving DecidableEq, Repr, Inhabited
 
 /-- the loop of `NewReplaceValues`: `if 0 < len(name) { names[name] = i }; values = append(values, value)` -/
-def newFrameFrom (i : Nat) (vals : List Int) (names : List (String × Nat)) : List RV → Frame
+def newFrameFrom (i : Nat) (vals : List VExpr) (names : List (String × Nat)) : List RV → Frame
   | [] => ⟨vals.reverse, names⟩
   | r :: rest =>
     newFrameFrom (i + 1) (r.value :: vals) (if r.name.length > 0 then (r.name, i) :: names else names) rest
 
 def newReplaceValues (l : List RV) : Frame := newFrameFrom 0 [] [] l
 
-/-- the replace-value context: innermost frame first (`context.WithValue` chain under the one key) -/
-abbrev Ctx := List Frame
+/-- the replace-value context (`context.WithValue` chain under the one key): the innermost frame, whether the frame
+    RECORDS the context it was written in (`values.Outer = ctx`, /repo 6dd3cc3), and the context it was pushed on —
+    which is that recorded context: ContextForPreparedStatement assigns and wraps the same `ctx`. -/
+inductive Ctx
+  | empty
+  | push (f : Frame) (recorded : Bool) (below : Ctx)
+  deriving DecidableEq, Repr, Inhabited
 
-/-- processor.go `ContextForPreparedStatement` -/
-def ctxForPrepared (ctx : Ctx) (f : Frame) : Ctx := f :: ctx
+/-- processor.go `ContextForPreparedStatement`: `values.Outer = ctx; return context.WithValue(ctx, key, values)` -/
+def ctxForPrepared (ctx : Ctx) (f : Frame) : Ctx := .push f true ctx
 
-/-- `ctx.Value(StatementReplaceValuesContextKey)` -/
-def ctxValue (ctx : Ctx) : Option Frame := ctx.head?
+/-- number of frames -/
+def Ctx.depth : Ctx → Nat
+  | .empty => 0
+  | .push _ _ below => below.depth + 1
+
+/-- every frame records where it was written -/
+def Ctx.allRecorded : Ctx → Bool
+  | .empty => true
+  | .push _ r below => r && below.allRecorded
 
 def assoc (l : List (String × Nat)) (k : String) : Option Nat :=
   match l with
   | [] => none
   | (k', v) :: t => if k' = k then some v else assoc t k
 
-/-- eval.go `evalPlaceholder` (`none`: StatementReplaceValueNotSpecifiedError, 13803) -/
-def evalPlaceholder (ctx : Ctx) (h : Holder) : Option Int :=
-  match ctxValue ctx with
-  | none => none
-  | some f =>
-    match h with
-    | .named n =>
-      match assoc f.names n with
-      | none => none
-      | some i => f.values[i]?
-    | .pos ord =>
-      -- idx = Ordinal − 1 (the parser numbers from 1; ordinal 0 would be index −1: Go panics, the parser never builds it)
-      match ord with
-      | 0 => none
-      | i + 1 => f.values[i]?
+/-- the index part of eval.go `evalPlaceholder`: `:name` → the index the frame's map gives; `?` → Ordinal − 1 (the
+    parser numbers from 1; ordinal 0 would be index −1: the parser never builds it); `none`: not specified -/
+def frameIndex (f : Frame) (h : Holder) : Option VExpr :=
+  match h with
+  | .named n =>
+    match assoc f.names n with
+    | none => none
+    | some i => f.values[i]?
+  | .pos ord =>
+    match ord with
+    | 0 => none
+    | i + 1 => f.values[i]?
+
+/-- `Evaluate(c, scope, e)` for a value expression, `lk` being what reading a placeholder in c gives -/
+def evalWith (lk : Holder → Option Int) : VExpr → Option Int
+  | .lit n => some n
+  | .ph h => lk h
+  | .plus e k => (evalWith lk e).map (· + k)
+
+/-- eval.go `evalPlaceholder` as it is since /repo 6dd3cc3 (`none`: StatementReplaceValueNotSpecifiedError, 13803):
+    the innermost frame gives the value EXPRESSION, which is evaluated in the context the frame was written in —
+    strictly shorter than the reader's, so this is a structural recursion over the context.  The reader's own frame is
+    never consulted for the expression. -/
+def evalPlaceholder : Ctx → Holder → Option Int
+  | .empty, _ => none
+  | .push f _ below, h =>
+    match frameIndex f h with
+    | none => none
+    | some e => evalWith (evalPlaceholder below) e
+
+/-! ### the same with the shape of the Go code, fuel instead of the Go stack
+
+  `evalV fuel c e` is `Evaluate(c, scope, e)` with at most `fuel` nested calls.  A frame that does NOT record its
+  context (`Outer == nil`: the code before 6dd3cc3) has its expressions evaluated in the READER's context `c` itself:
+  `USING ?` then reads itself.  `C16Stmt.placeholder_eval_terminates`: over recorded frames `size e + weight c` calls
+  always suffice and the answer is `evalWith (evalPlaceholder c) e`; `C16Stmt.old_lazy_evaluation_loops`: for the
+  unrecorded frame of `USING ?` no fuel suffices. -/
+
+inductive PV
+  | val (n : Int)
+  | notSpecified
+  | diverged               -- the fuel is used up (Go: the stack grows until the runtime gives up)
+  deriving DecidableEq, Repr, Inhabited
+
+def PV.ofOption : Option Int → PV
+  | some n => .val n
+  | none => .notSpecified
+
+def evalV : Nat → Ctx → VExpr → PV
+  | 0, _, _ => .diverged
+  | _ + 1, _, .lit n => .val n
+  | fuel + 1, c, .plus e k =>
+    match evalV fuel c e with
+    | .val n => .val (n + k)
+    | r => r
+  | fuel + 1, c, .ph h =>
+    match c with
+    | .empty => .notSpecified
+    | .push f recorded below =>
+      match frameIndex f h with
+      | none => .notSpecified
+      | some e => evalV fuel (if recorded then below else c) e
+
+def maxSize : List VExpr → Nat
+  | [] => 0
+  | e :: rest => max e.size (maxSize rest)
+
+/-- the measure: the largest expression of every frame, summed along the chain of recorded contexts -/
+def Ctx.weight : Ctx → Nat
+  | .empty => 0
+  | .push f _ below => maxSize f.values + below.weight
 
 /-- the WHERE clause of the cursor's statement -/
 inductive Cond
@@ -118,6 +210,8 @@ def selectRows (lk : Holder → Option Int) (c : Cond) : List Row → Option (Li
       match selectRows lk c rest with
       | none => none
       | some out => some (if keep then tok :: out else out)
+
+def closedList (us : List RV) : Bool := us.all (·.value.closed)
 
 /-- result of a statement of this file: a result of Model/Cursor, or the evaluation error of the cursor's statement -/
 inductive ORes
@@ -170,6 +264,15 @@ inductive Prog
   | source (body rest : Prog)                                         -- SOURCE file; the file's statements: body
   deriving Repr, Inhabited
 
+/-- no placeholder in any USING list of the program -/
+def Prog.closed : Prog → Bool
+  | .done => true
+  | .openC _ _ us rest => closedList us && rest.closed
+  | .act _ rest => rest.closed
+  | .exec us body rest => closedList us && body.closed && rest.closed
+  | .call body rest => body.closed && rest.closed
+  | .source body rest => body.closed && rest.closed
+
 /-- run a program; results in order up to and including the first error; `true`: an error ended it -/
 def runP (table : List Row) (ctx : Ctx) (st : Stack String) : Prog → Stack String × List ORes × Bool
   | .done => (st, [], false)
@@ -206,8 +309,11 @@ def runP (table : List Row) (ctx : Ctx) (st : Stack String) : Prog → Stack Str
 
 /-! ## what a statement reads: the specification side -/
 
-/-- the WHERE clause with every placeholder replaced by the value the cursor's OWN frame gives (`none`: unbound) -/
-def ownLookup (us : List RV) : Holder → Option Int := evalPlaceholder [newReplaceValues us]
+/-- what the cursor's statement reads: the expression the OPEN's OWN list gives, evaluated with `outer` — what reading a
+    placeholder gives in the context of the statement that CONTAINS the OPEN (`none`: unbound) -/
+def ownLookup (outer : Holder → Option Int) (us : List RV) : Holder → Option Int :=
+  fun h => (frameIndex (newReplaceValues us) h).bind (evalWith outer)
+
 
 /-- evaluating the clause for this id reads a placeholder the lookup cannot answer -/
 def Cond.stuck (lk : Holder → Option Int) (id : Int) (c : Cond) : Bool := (evalCond lk id c).isNone
@@ -246,13 +352,14 @@ inductive CtxCond
 inductive CtxStmt
   | ret (e : CtxExpr)
   | ifRet (c : CtxCond) (e : CtxExpr)               -- `if c { return e }`
+  | setOuter (rhs : String)                         -- `values.Outer = rhs`
   | other (src : String)
   deriving DecidableEq, Repr
 
-def interpCtxExpr (ctx : Ctx) (f : Frame) : CtxExpr → Option Ctx
+def interpCtxExpr (ctx : Ctx) (f : Frame) (recorded : Bool) : CtxExpr → Option Ctx
   | .ctx => some ctx
   | .withValue p k v =>
-    if p = "ctx" ∧ k = "StatementReplaceValuesContextKey" ∧ v = "values" then some (f :: ctx) else none
+    if p = "ctx" ∧ k = "StatementReplaceValuesContextKey" ∧ v = "values" then some (.push f recorded ctx) else none
   | .other _ => none
 
 def interpCtxCond (f : Frame) : CtxCond → Option Bool
@@ -260,22 +367,25 @@ def interpCtxCond (f : Frame) : CtxCond → Option Bool
   | .valuesNonEmpty => some (decide (0 < f.values.length))
   | .other _ => none
 
-/-- run the statements of `ContextForPreparedStatement(ctx, values)`; `none`: outside the reviewed subset, or the
-    function falls off its end -/
-def interpCtxFn : List CtxStmt → Ctx → Frame → Option Ctx
+/-- run the statements of `ContextForPreparedStatement(ctx, values)`; `recorded`: `values.Outer = ctx` was executed;
+    `none`: outside the reviewed subset, or the function falls off its end -/
+def interpCtxFnFrom (recorded : Bool) : List CtxStmt → Ctx → Frame → Option Ctx
   | [], _, _ => none
-  | .ret e :: _, ctx, f => interpCtxExpr ctx f e
+  | .ret e :: _, ctx, f => interpCtxExpr ctx f recorded e
   | .ifRet c e :: rest, ctx, f =>
     match interpCtxCond f c with
     | none => none
-    | some true => interpCtxExpr ctx f e
-    | some false => interpCtxFn rest ctx f
+    | some true => interpCtxExpr ctx f recorded e
+    | some false => interpCtxFnFrom recorded rest ctx f
+  | .setOuter rhs :: rest, ctx, f => if rhs = "ctx" then interpCtxFnFrom true rest ctx f else none
   | .other _ :: _, _, _ => none
 
-/-- does the statement list contain a conditional return or anything unreviewed? (`false`: a plain `return`) -/
+def interpCtxFn (l : List CtxStmt) (ctx : Ctx) (f : Frame) : Option Ctx := interpCtxFnFrom false l ctx f
+
+/-- is the statement list the unconditional record-and-wrap? -/
 def ctxFnIsPlainWrap (l : List CtxStmt) : Bool :=
   match l with
-  | [.ret (.withValue "ctx" "StatementReplaceValuesContextKey" "values")] => true
+  | [.setOuter "ctx", .ret (.withValue "ctx" "StatementReplaceValuesContextKey" "values")] => true
   | _ => false
 
 end Csvq.CursorStmt
